@@ -94,7 +94,7 @@ theorem gwSend_flush (bm : Msg) (w : W) (h : bm.cmd = 1) : gwSend bm Gen.bufFlus
 
 /-- One iteration of the release loop whose write succeeds. -/
 theorem flushList_cons_pass (k : Key) (bm : Msg) (rest : List (Key × Msg)) (w : W) (h : bm.cmd = 1)
-    (hf : w.faults = [] ∨ ∃ fs, w.faults = false :: fs) :
+    (hf : w.faults = [] ∨ ∃ fs, w.faults = .pass :: fs) :
     flushList ((k, bm) :: rest) w =
       flushList rest { w with
         faults := w.faults.tail,
@@ -105,18 +105,20 @@ theorem flushList_cons_pass (k : Key) (bm : Msg) (rest : List (Key × Msg)) (w :
   · rw [transportWrite_ok _ _ hf]; simp [M.modifySt, hf]
   · rw [transportWrite_pass _ _ fs hf]; simp [M.modifySt, hf]
 
-/-- One iteration whose write fails: the error propagates, the entry and everything after it stay. -/
-theorem flushList_cons_fail (k : Key) (bm : Msg) (rest : List (Key × Msg)) (w : W) (fs : List Bool) (h : bm.cmd = 1)
-    (hf : w.faults = true :: fs) :
+/-- One iteration whose write does not complete (transport failure, or the task cancelled while it
+waits there): the exception propagates, the entry and everything after it stay. -/
+theorem flushList_cons_fail (k : Key) (bm : Msg) (rest : List (Key × Msg)) (w : W) (f : Fault) (x : Exn) (fs : List Fault)
+    (h : bm.cmd = 1) (hf : w.faults = f :: fs) (hx : f.exn = some x) :
     flushList ((k, bm) :: rest) w =
-      (.error (.lib .transportFailed), { w with faults := fs, writes := w.writes ++ [⟨encode bm, false⟩] }) := by
+      (.error x, { w with faults := fs, writes := w.writes ++ [⟨encode bm, false⟩] }) := by
   simp only [flushList, M.seq, M.bind, gwSend_flush bm w h]
-  rw [transportWrite_fail _ _ fs hf]
+  rw [transportWrite_abort _ _ f x fs hf hx]
 
 /-- **The release loop under any fault schedule.** For entries that are in the (duplicate-free)
 buffer, some prefix of them is written successfully and removed; then either the list is exhausted
-(success) or the next write failed (the transport error is reported, that entry and all later
-ones are still buffered, nothing is written twice). -/
+(success) or the next write did not complete — the transport failed, or the task was cancelled while
+it waited in that write — and the corresponding exception is reported, that entry and all later
+ones are still buffered, nothing is written twice. -/
 theorem flushList_spec (l : List (Key × Msg)) (w : W) (hwf : PDict.WF w.st.sbuf)
     (hcmd : ∀ e ∈ l, e.2.cmd = 1) (hmem : ∀ e ∈ l, e ∈ w.st.sbuf) (hnd : (l.map (·.1)).Nodup) :
     ∃ i, i ≤ l.length ∧
@@ -125,7 +127,8 @@ theorem flushList_spec (l : List (Key × Msg)) (w : W) (hwf : PDict.WF w.st.sbuf
       (flushList l w).2.st.pv = w.st.pv ∧ (flushList l w).2.st.proto = w.st.proto ∧
       ((i = l.length ∧ (flushList l w).1 = .ok () ∧
           (flushList l w).2.writes = w.writes ++ l.map (fun e => ⟨encode e.2, true⟩)) ∨
-       (∃ e, l[i]? = some e ∧ (flushList l w).1 = .error (.lib .transportFailed) ∧
+       (∃ e x, l[i]? = some e ∧ (flushList l w).1 = .error x ∧
+          (x = .lib .transportFailed ∧ w.faults[i]? = some .fail ∨ x = .foreign .CancelledError ∧ w.faults[i]? = some .cancel) ∧
           (flushList l w).2.writes = w.writes ++ (l.take i).map (fun e => ⟨encode e.2, true⟩) ++ [⟨encode e.2, false⟩])) := by
   induction l generalizing w with
   | nil => exact ⟨0, by simp [flushList, M.pure, eraseAll]⟩
@@ -137,11 +140,15 @@ theorem flushList_spec (l : List (Key × Msg)) (w : W) (hwf : PDict.WF w.st.sbuf
     cases hfl : w.faults with
     | cons f fs =>
       cases f with
-      | true =>
+      | fail =>
         refine ⟨0, by simp, ?_⟩
-        rw [flushList_cons_fail k bm xs w fs hbm hfl]
+        rw [flushList_cons_fail k bm xs w .fail _ fs hbm hfl rfl]
         simp [eraseAll]
-      | false =>
+      | cancel =>
+        refine ⟨0, by simp, ?_⟩
+        rw [flushList_cons_fail k bm xs w .cancel _ fs hbm hfl rfl]
+        simp [eraseAll]
+      | pass =>
         rw [flushList_cons_pass k bm xs w hbm (Or.inr ⟨fs, hfl⟩)]
         simp only [hget, if_true]
         obtain ⟨i, hi, hs, hn, hib, hpv, hpr, hres⟩ := ih
@@ -153,9 +160,9 @@ theorem flushList_spec (l : List (Key × Msg)) (w : W) (hwf : PDict.WF w.st.sbuf
         refine ⟨i + 1, by simp; omega, ?_⟩
         simp only [List.take_succ_cons, List.map_cons, eraseAll, List.foldl_cons, List.length_cons] at hs ⊢
         refine ⟨hs, hn, hib, hpv, hpr, ?_⟩
-        rcases hres with ⟨h1, h2, h3⟩ | ⟨e, h1, h2, h3⟩
+        rcases hres with ⟨h1, h2, h3⟩ | ⟨e, x, h1, h2, hx, h3⟩
         · left; exact ⟨by omega, h2, by simp [h3]⟩
-        · right; exact ⟨e, by simpa using h1, h2, by simp [h3]⟩
+        · right; exact ⟨e, x, by simpa using h1, h2, by simpa [hfl] using hx, by simp [h3]⟩
     | nil =>
       rw [flushList_cons_pass k bm xs w hbm (Or.inl hfl)]
       simp only [hget, if_true]
@@ -168,9 +175,9 @@ theorem flushList_spec (l : List (Key × Msg)) (w : W) (hwf : PDict.WF w.st.sbuf
       refine ⟨i + 1, by simp; omega, ?_⟩
       simp only [List.take_succ_cons, List.map_cons, eraseAll, List.foldl_cons, List.length_cons] at hs ⊢
       refine ⟨hs, hn, hib, hpv, hpr, ?_⟩
-      rcases hres with ⟨h1, h2, h3⟩ | ⟨e, h1, h2, h3⟩
+      rcases hres with ⟨h1, h2, h3⟩ | ⟨e, x, h1, h2, hx, h3⟩
       · left; exact ⟨by omega, h2, by simp [h3]⟩
-      · right; exact ⟨e, by simpa using h1, h2, by simp [h3]⟩
+      · right; exact ⟨e, x, by simpa using h1, h2, by simpa [hfl] using hx, by simp [h3]⟩
 
 end AioMySensors
 
